@@ -424,6 +424,8 @@ class XPathToken(Token[ta.XPathTokenType]):
                 return cls(value)
             elif isinstance(value, UntypedAtomic):
                 try:
+                    if hasattr(cls, 'fromstring'):
+                        return cls.fromstring(value.value)  # durations, dates and times
                     return cls(value)
                 except (TypeError, ValueError):
                     pass
